@@ -101,6 +101,16 @@ def run_case(ctx, case):
         receiver = None
         new = None
         extra = []          # (tensor created inside the step, its snapshot before the call under test, label)
+        argarrs = []        # (caller-owned array / list argument, copy taken before the call, label)
+
+        def as_arg(vals, label):
+            """a list of ints handed over as list | tuple | np.int64 array | torch.long tensor (the caller keeps the object)"""
+            k_ = rng.choice(["list", "list", "tuple", "np", "np", "torch", "torch"])
+            obj = list(vals) if k_ == "list" else tuple(vals) if k_ == "tuple" else np.array(vals, dtype=np.int64) if k_ == "np" \
+                else torch.tensor(vals, dtype=torch.long)
+            cp = obj.copy() if k_ == "np" else obj.clone() if k_ == "torch" else type(obj)(obj)
+            argarrs.append((obj, cp, "%s (%s)" % (label, k_)))
+            return obj
 
         def call():
             nonlocal receiver, new
@@ -120,7 +130,8 @@ def run_case(ctx, case):
                 if rng.random() < 0.5 and 0 in dims and len(dims) > 1:
                     dims.remove(0)
                 dims = [d - N if rng.random() < 0.3 else d for d in dims]
-                r_ = (tn.mean if op == "mean_partial" else tn.sum)(a, dim=dims if rng.random() < 0.8 or len(dims) > 1 else dims[0], keepdim=rng.random() < 0.5)
+                r_ = (tn.mean if op == "mean_partial" else tn.sum)(a, dim=as_arg(dims, "the dim argument") if rng.random() < 0.8 or len(dims) > 1 else dims[0],
+                                                                    keepdim=rng.random() < 0.5)
                 new = r_ if isinstance(r_, tn.Tensor) else None
             elif op == "std":
                 tn.std(a)
@@ -145,8 +156,12 @@ def run_case(ctx, case):
             elif op == "partial":
                 new = tn.partial(a, rng.randrange(N), order=rng.choice([1, 2]))
             elif op == "ttm":
-                m_ = rng.randrange(N)
-                new = tn.ttm(a, torch.tensor(np.array([[rng.uniform(-1, 1) for _ in range(a.shape[m_])] for _ in range(2)])), dim=m_)
+                ms_ = sorted(rng.sample(range(N), rng.randint(1, min(N, 2))))
+                Us_ = [torch.tensor(np.array([[rng.uniform(-1, 1) for _ in range(a.shape[m_])] for _ in range(2)])) for m_ in ms_]
+                for U_ in Us_:
+                    argarrs.append((U_, U_.clone(), "a matrix passed to ttm"))
+                dd_ = [m_ - N if rng.random() < 0.4 else m_ for m_ in ms_]
+                new = tn.ttm(a, Us_ if len(Us_) > 1 or rng.random() < 0.5 else Us_[0], dim=as_arg(dd_, "the dim argument") if len(dd_) > 1 or rng.random() < 0.7 else dd_[0])
             elif op == "pad":
                 new = tn.pad(a, [rng.randint(a.shape[k], a.shape[k] + 1) for k in range(N)], dim=list(range(N)), fill_value=rng.choice([0, 1.5]))
             elif op == "repeat":
@@ -239,6 +254,14 @@ def run_case(ctx, case):
             if s3[0] == "err" or not same(sx, s3[1]):
                 ctx.oracle("step %d (%s): %s changed (value, format or ranks)" % (step, op, label), case,
                            cls={"op": op, "predicate": "another tensor changed"})
+                return
+        for obj, cp, label in argarrs:
+            okarg = bool(np.array_equal(obj, cp)) if isinstance(obj, np.ndarray) else bool(torch.equal(obj, cp)) if isinstance(obj, torch.Tensor) \
+                else obj == cp
+            if not okarg:
+                ctx.oracle("step %d (%s): %s was modified: %s -> %s" % (step, op, label, cp if not hasattr(cp, "tolist") else cp.tolist(),
+                                                                       obj if not hasattr(obj, "tolist") else obj.tolist()), case,
+                           cls={"op": op, "predicate": "argument array modified"})
                 return
         for m, m0 in zip(margs, margs0):
             if not torch.equal(m, m0):
